@@ -184,12 +184,103 @@ func c14LabelTable(c *Ctx, r *Report) {
 			}
 		})
 	}
+	// ... nor through an alias: outside init the table may only be looked up,
+	// ranged over or measured; storing it somewhere, returning it, or handing it to
+	// code that does anything else with it lets a later delete/insert reach it
+	nLoads := 0
+	for _, f := range modFunctions(c) {
+		if f == initFn {
+			continue
+		}
+		allInstrs(f, func(in ssa.Instruction) {
+			ld, ok := in.(*ssa.UnOp)
+			if !ok || ld.Op != token.MUL || ld.X != ssa.Value(g) {
+				return
+			}
+			nLoads++
+			if w := frozenMapUse(ld, 0); w != "" {
+				r.Bad("label-table", "StatusLabelToLintStatus|alias|"+fname(f), ld.Pos(), "the label table is "+w+" in "+fname(f)+": the decoder's table can then be changed through the alias (labels deleted or re-mapped after start-up)")
+			}
+		})
+	}
+	r.Floor("readers of the label table", 1, nLoads)
 	if bad != "" {
 		r.Bad("label-table", "StatusLabelToLintStatus", g.Pos(), bad)
 	}
 	for n, v := range consts {
 		r.Check(got[v.ExactString()], "label-table", n, g.Pos(), "has an entry", "status "+n+" has no entry in StatusLabelToLintStatus: its label is rejected when decoding")
 	}
+}
+
+// frozenMapUse: v (a map) is only looked up, ranged over, measured, or passed
+// to module functions that do no more than that with it.
+func frozenMapUse(v ssa.Value, depth int) string {
+	if depth > 4 {
+		return "passed on through too many calls to follow"
+	}
+	refs := v.Referrers()
+	if refs == nil {
+		return ""
+	}
+	for _, ref := range *refs {
+		switch x := ref.(type) {
+		case *ssa.DebugRef:
+		case *ssa.Lookup:
+			if x.X != v {
+				return "used as a key"
+			}
+		case *ssa.Range:
+		case *ssa.MapUpdate:
+			if x.Map == v {
+				return "written (map update)"
+			}
+			return "stored as an element of another map"
+		case *ssa.Phi:
+			if w := frozenMapUse(x, depth+1); w != "" {
+				return w
+			}
+		case *ssa.Store:
+			if a, ok := x.Addr.(*ssa.Alloc); ok && !a.Heap && x.Val == v {
+				for _, r2 := range *a.Referrers() {
+					if ld, ok := r2.(*ssa.UnOp); ok && ld.Op == token.MUL {
+						if w := frozenMapUse(ld, depth+1); w != "" {
+							return w
+						}
+					} else if st, ok := r2.(*ssa.Store); ok && st.Addr == ssa.Value(a) {
+					} else if _, ok := r2.(*ssa.DebugRef); ok {
+					} else {
+						return "kept in a variable whose address escapes"
+					}
+				}
+				continue
+			}
+			return "stored into " + apath(x.Addr)
+		case *ssa.Return:
+			return "returned to the caller"
+		case ssa.CallInstruction:
+			cc := x.Common()
+			if b, ok := cc.Value.(*ssa.Builtin); ok {
+				if b.Name() == "len" {
+					continue
+				}
+				return "passed to " + b.Name() + "()"
+			}
+			callee := cc.StaticCallee()
+			if callee == nil || !isModFunc(callee) || len(callee.Blocks) == 0 {
+				return "passed to " + staticCalleeName(cc)
+			}
+			for i, a := range cc.Args {
+				if a == v && i < len(callee.Params) {
+					if w := frozenMapUse(callee.Params[i], depth+1); w != "" {
+						return w + " (in " + fname(callee) + ")"
+					}
+				}
+			}
+		default:
+			return fmt.Sprintf("used by %s", ref.String())
+		}
+	}
+	return ""
 }
 
 func c14Codec(c *Ctx, r *Report) {
